@@ -115,7 +115,7 @@ newline"`)
 				{Kind: "var", Name: "*fx-revar*", Redef: 2, Forms: []string{`(defvar *fx-revar* 1 "first")`, `(defparameter *fx-revar* '(2 b) "second")`, `(setq *fx-revar* "third")`},
 					Probes: []string{"*fx-revar*", "(documentation '*fx-revar* 'variable)"}},
 				{Kind: "flavor", Name: "fx-refl", Redef: 1, Forms: []string{
-					`(defflavor fx-refl ((a 1) (b 2)) () :gettable-instance-variables)`,
+					`(defflavor fx-refl ((a 1) (b 2)) () :gettable-instance-variables)`, `(undefflavor 'fx-refl)`,
 					`(defflavor fx-refl ((a 5) (c "x")) () :gettable-instance-variables :settable-instance-variables (:documentation "again"))`},
 					Probes: []string{"(let ((i (make-instance 'fx-refl))) (list (send i :a) (send i :c) (progn (send i :set-a 7) (send i :a))))", "(send (make-instance 'fx-refl) :b)", "(documentation 'fx-refl 'type)"}},
 				{Kind: "generic", Name: "fx-regf", Redef: 1, Forms: []string{
@@ -129,7 +129,7 @@ newline"`)
 				Obj: "(find-class 'fx-recls)", Probes: []string{
 					"(let ((i (make-instance 'fx-recls :c 3))) (list (slot-value i 'a) (slot-value i 'c) (slot-exists-p i 'b)))", "(documentation 'fx-recls 'type)"}}}},
 			Case{Mode: "def", Kind: "flavor", Margins: []int{60}, Items: []Item{{Kind: "flavor", Name: "fx-refl", Redef: 1, Forms: []string{
-				`(defflavor fx-refl ((a 1) (b 2)) () :gettable-instance-variables)`,
+				`(defflavor fx-refl ((a 1) (b 2)) () :gettable-instance-variables)`, `(undefflavor 'fx-refl)`,
 				`(defflavor fx-refl ((a 5) (c "x")) () :gettable-instance-variables :settable-instance-variables (:documentation "again"))`},
 				Obj: "(find-flavor 'fx-refl)", Probes: []string{
 					"(let ((i (make-instance 'fx-refl))) (list (send i :a) (send i :c) (progn (send i :set-a 7) (send i :a))))", "(send (make-instance 'fx-refl) :b)"}}}},
